@@ -317,7 +317,7 @@ def judge_seq(ops, out):
         if "TIMEOUT" in l:
             return "the event loop did not reach quiescence (hang)"
         if l.startswith("end "):
-            m = re.match(r"end exited=\d leaks=(\S+) multi=(\S+) bad=(\S+) lost=(\S+) wild=(\d+)", l)
+            m = re.match(r"end exited=\d leaks=(\S+) multi=(\S+) bad=(\S+) lost=(\S+) fdl=(\S+) wild=(\d+)", l)
             if not m:
                 return "malformed end line: " + l
             if m.group(1) != "-":
@@ -328,7 +328,9 @@ def judge_seq(ops, out):
                 return "bytes reached cb_msg out of order or duplicated for: " + m.group(3)
             if m.group(4) != "-":
                 return "bytes sent before the peer closed never reached cb_msg for: " + m.group(4)
-            if m.group(5) != "0":
+            if m.group(5) != "-":
+                return "server-side descriptor never closed although its context is gone / was never created: " + m.group(5)
+            if m.group(6) != "0":
                 return "free or callback on a context that is not live / accept identity mismatch / timeout"
     return None
 
@@ -341,7 +343,7 @@ def signature_seq(ops, a):
     out = a["out"]
     end = next((l for l in out if l.startswith("end ")), "")
     if re.search(r"leaks=\d", end) and any(o == "hand" for o in ops) and ops[0].startswith("new 2 ") \
-            and " multi=- bad=- lost=- wild=0" in end and not a["crash"]:
+            and " multi=- bad=- lost=- fdl=- wild=0" in end and not a["crash"]:
         return "on-wake-add-failure-leak"
     return None
 
